@@ -1030,7 +1030,7 @@ def oracle_sim(w):
         np.random.seed(1234 + j)
         try:
             if c[0] == "run":
-                deterministic = not (m > 0 and not c[3])
+                deterministic = not (sum(1 for o in cur_ops if "m" in o) > 0 and not c[3])
                 out = sim.run(inits[c[1]], cbits=None if c[2] is None else lists[c[2]],
                               measure_results=None if c[3] is None else tuple(c[3]))
             elif c[0] == "stat":
@@ -1178,11 +1178,61 @@ def rand_simedit(rng):
                         and h["name"] not in ("UROT", "UCROT")), None)
             if new is not None:
                 edits.append({"i": i, "how": "replace", "gate": new})
+    # edits that change the NUMBER of operations / measurements (positions refer to the circuit at that time)
+    length = len(w["gates"])
+    nmeas = sum(1 for g in w["gates"] if "M" in g)
+    extra = []
+    for _ in range(rng.randint(1, 3)):
+        r = rng.random()
+        if r < 0.45 and nmeas < 3:
+            extra.append({"how": "addM", "M": rng.randrange(n), "store": (rng.randrange(w["ncb"]) if w["ncb"] else None),
+                          "index": rng.choice([None, rng.randint(0, length)])})
+            length += 1
+            nmeas += 1
+        elif r < 0.6:
+            new = next((h for h in rand_lib_circuit(rng, n)["gates"] if "M" not in h and h.get("cc") is None
+                        and h["name"] not in ("UROT", "UCROT")), None)
+            if new is not None:
+                extra.append({"how": "addG", "gate": new, "index": rng.choice([None, rng.randint(0, length)])})
+                length += 1
+        elif r < 0.85 and length > 1:
+            extra.append({"how": "remove", "i": rng.randrange(length), "prefer_measurement": rng.random() < 0.6})
+            length -= 1
+        elif w["ncb"]:
+            extra.append({"how": "store", "store": rng.choice([None] + list(range(w["ncb"])))})
+    if rng.random() < 0.7:
+        # gate-level edits keep their positions only while nothing was added or removed: they come first
+        edits = edits + extra if rng.random() < 0.5 else extra
     return {"kind": "simedit", "n": n, "ncb": w["ncb"], "gates": w["gates"], "edits": edits,
-            "mode": "sv" if rng.random() < 0.8 else "dm", "init": rng.randrange(2 ** n)}
+            "mode": "sv" if rng.random() < 0.8 else "dm", "init": rng.randrange(2 ** n), "step": rng.random() < 0.5}
 
 
 def apply_lib_edit(qc, e):
+    from qutip_qip.operations import Measurement
+    if e["how"] == "addM":
+        kw = {} if e.get("index") is None else {"index": [min(e["index"], len(qc.gates))]}
+        qc.add_measurement("M", targets=[e["M"]], classical_store=e.get("store"), **kw)
+        return
+    if e["how"] == "addG":
+        h = e["gate"]
+        kw = {} if e.get("index") is None else {"index": [min(e["index"], len(qc.gates))]}
+        qc.add_gate(h["name"], targets=(None if h["targets"] is None else list(h["targets"])),
+                    controls=(list(h["controls"]) if h.get("controls") else None),
+                    arg_value=(list(h["arg"]) if isinstance(h.get("arg"), list) else h.get("arg")), **kw)
+        return
+    if e["how"] == "remove":
+        i = min(e["i"], len(qc.gates) - 1)
+        mpos = [k for k, g in enumerate(qc.gates) if isinstance(g, Measurement)]
+        if e.get("prefer_measurement") and mpos:
+            i = mpos[i % len(mpos)]
+        qc.remove_gate_or_measurement(index=i)
+        return
+    if e["how"] == "store":
+        mpos = [k for k, g in enumerate(qc.gates) if isinstance(g, Measurement)]
+        if not mpos:
+            raise IndexError("no measurement to re-assign")
+        qc.gates[mpos[0]].classical_store = e["store"]
+        return
     g = qc.gates[e["i"]]
     if e["how"] == "arg":
         g.arg_value = e["arg"]
@@ -1227,7 +1277,6 @@ def oracle_simedit(w):
         except Exception as e:
             return ("exc", type(e).__name__)
 
-    has_m = any(isinstance(g, Measurement) for g in qc.gates)
     for stage in range(len(w["edits"]) + 1):
         if stage:
             e = w["edits"][stage - 1]
@@ -1235,8 +1284,19 @@ def oracle_simedit(w):
                 apply_lib_edit(qc, e)
             except Exception as ex:
                 return False, f"edit {stage} not applicable: {type(ex).__name__}"
-            if len(qc.gates) != len(w["gates"]):
-                return False, "edit changed the number of operations"
+        has_m = any(isinstance(g, Measurement) for g in qc.gates)
+        if w.get("step") and w["mode"] == "sv" and not has_m:
+            # initialize + step through the edited circuit on the used simulator against a fresh one
+            def stepped(s_):
+                try:
+                    s_.initialize(init, cbits=(None if cb is None else list(cb)))
+                    for _ in range(len(qc.gates)):
+                        s_.step()
+                    return snap(np.asarray(s_.state.full()))
+                except Exception as ex:
+                    return ("exc", type(ex).__name__)
+            if not close(stepped(sim), stepped(CircuitSimulator(qc, mode=mode)), 1e-9):
+                return True, f"initialize + step through the circuit after edit {stage}: used simulator differs from a fresh one"
         for what in (["stat"] if has_m else ["stat", "run"]):
             used = ev(sim, what)
             fresh = ev(CircuitSimulator(qc, mode=mode), what)
@@ -1245,6 +1305,20 @@ def oracle_simedit(w):
                 return True, (f"{'run_statistics' if what == 'stat' else 'run'} {where}: the used simulator differs from a "
                               f"freshly constructed CircuitSimulator of the circuit as it is now")
             if what == "stat":
+                # repeatable, and the probabilities of the branches sum to one
+                again = ev(sim, what)
+                if not close(used, again, 1e-9):
+                    return True, f"run_statistics {('after edit %d' % stage) if stage else 'before any edit'}: two identical calls differ"
+                try:
+                    rr = sim.run_statistics(init, cbits=(None if cb is None else list(cb)))
+                    tot = float(sum(rr.get_probabilities()))
+                    # (state-vector mode: in density-matrix mode every record returns the dephased mixture with
+                    # probability 1 — the behaviour modelled by C02)
+                    if w["mode"] == "sv" and abs(tot - 1) > 1e-9:
+                        return True, (f"run_statistics after edit {stage} ({json.dumps(w['edits'][stage - 1]) if stage else '-'}): "
+                                      f"{len(rr.get_probabilities())} branches whose probabilities sum to {tot!r}")
+                except Exception:
+                    pass
                 try:
                     direct = result_canon(qc.run_statistics(init, cbits=(None if cb is None else list(cb))))
                 except Exception as ex:
@@ -1260,6 +1334,13 @@ W_SIMEDIT = {"kind": "simedit", "n": 2, "ncb": 0, "mode": "sv", "init": 0,
              "edits": [{"i": 0, "how": "replace",
                         "gate": {"name": "RY", "targets": [0], "controls": None, "arg": math.pi / 3, "cc": None, "ccv": None}},
                        {"i": 0, "how": "arg", "arg": 2.1}]}
+
+
+W_SIMEDIT_MEAS = {"kind": "simedit", "n": 1, "ncb": 1, "mode": "sv", "init": 0, "step": True,
+                  "gates": [{"name": "SNOT", "targets": [0], "controls": None, "arg": None, "cc": None, "ccv": None}],
+                  "edits": [{"how": "addM", "M": 0, "store": 0, "index": None},
+                            {"how": "store", "store": None},
+                            {"how": "remove", "i": 0, "prefer_measurement": True}]}
 
 
 def oracle_device(dev):
@@ -1408,34 +1489,61 @@ def rand_sim_history(rng, with_queries=True, max_calls=8, with_edits=True):
     inits = [S.rand_init(rng, n, None if mode == "sv" else "basis") for _ in range(2)]
     lists = [[rng.randint(0, 1) for _ in range(ncb)] for _ in range(2)] if ncb else []
     calls = []
-    # in-place edits of the simulator's circuit between calls, number of operations unchanged: gate i replaced by
-    # another gate (remove + add at the same index) or its targets / controls re-assigned
+    # in-place edits of the simulator's circuit between calls: gate i replaced by another gate (remove + add at the same
+    # index) or its targets / controls re-assigned; a measurement or gate appended / inserted at an index; an operation
+    # removed; classical_store / target of a measurement re-assigned (the number of operations AND of measurements changes)
     alts = []
     gate_pos = [i for i, o in enumerate(ops) if "g" in o]
-    if with_edits and gate_pos and rng.random() < 0.45:
+    if with_edits and rng.random() < 0.5:
         cur = ops
-        for _ in range(rng.randint(1, 2)):
-            i = rng.choice(gate_pos)
-            new = None
-            for _try in range(8):
-                cand = S.rand_gate(rng, n, ncb, big_ccv=0.0, p_cc=0.0)
-                cand = dict(cand, cc=cur[i]["cc"], ccv=cur[i]["ccv"]) if rng.random() < 0.5 else cand
-                if cand != cur[i]:
-                    new = cand
-                    break
-            if new is None:
-                break
-            cur = cur[:i] + [new] + cur[i + 1:]
+        for _ in range(rng.randint(1, 3)):
+            mc = sum(1 for o in cur if "m" in o)
+            gpos = [i for i, o in enumerate(cur) if "g" in o]
+            mpos = [i for i, o in enumerate(cur) if "m" in o]
+            r = rng.random()
+            nxt = None
+            if r < 0.3 and mc < 3:
+                # a measurement added (appended or inserted): the circuit may go from 0 to >= 1 measurements
+                i = rng.choice([len(cur), rng.randint(0, len(cur))])
+                nxt = cur[:i] + [{"m": rng.randrange(n), "store": (rng.randrange(ncb) if ncb and rng.random() < 0.8 else None)}] + cur[i:]
+            elif r < 0.45 and len(cur) < 8:
+                i = rng.choice([len(cur), rng.randint(0, len(cur))])
+                nxt = cur[:i] + [S.rand_gate(rng, n, ncb, big_ccv=0.0)] + cur[i:]
+            elif r < 0.65 and len(cur) > 1:
+                # an operation removed (measurements preferred: back to fewer / no measurements)
+                i = rng.choice(mpos) if (mpos and rng.random() < 0.6) else rng.randrange(len(cur))
+                nxt = cur[:i] + cur[i + 1:]
+            elif r < 0.75 and mpos and ncb:
+                i = rng.choice(mpos)
+                new = dict(cur[i], store=rng.choice([None] + list(range(ncb))))
+                if rng.random() < 0.3:
+                    new["m"] = rng.randrange(n)
+                nxt = cur[:i] + [new] + cur[i + 1:] if new != cur[i] else None
+            elif gpos:
+                i = rng.choice(gpos)
+                for _try in range(8):
+                    cand = S.rand_gate(rng, n, ncb, big_ccv=0.0, p_cc=0.0)
+                    cand = dict(cand, cc=cur[i]["cc"], ccv=cur[i]["ccv"]) if rng.random() < 0.5 else cand
+                    if cand != cur[i]:
+                        nxt = cur[:i] + [cand] + cur[i + 1:]
+                        break
+            if nxt is None:
+                continue
+            cur = nxt
             alts.append(cur)
+    versions = [ops] + alts
+    ms = [sum(1 for o in v if "m" in o) for v in versions]
     version = 0
     for _ in range(rng.randint(2, max_calls)):
+        m = ms[version]
         cb = rng.choice([None, 0, 1]) if lists else None
         mr = [rng.randint(0, 1) for _ in range(m)] if (m and rng.random() < 0.8) else None
         k = rng.random()
         if alts and calls and rng.random() < 0.3:
-            v = rng.choice([x for x in range(len(alts) + 1) if x != version])
+            # each version differs from its neighbour by ONE public edit: move one version forward or back
+            v = rng.choice([x for x in (version - 1, version + 1) if 0 <= x <= len(alts)])
             version = v
-            calls.append(("edit", v, rng.choice(["replace", "assign"])))
+            calls.append(("edit", v, rng.choice(["replace", "assign", "append"])))
             continue
         if k < 0.3:
             calls.append(("run", rng.randrange(2), cb, mr))
@@ -1906,7 +2014,7 @@ class C16(PropertyCheck):
     def _sweep(self, ctx, budget_s, count):
         rng = ctx.rng
         t0 = time.time()
-        fixed = (W_ALIAS, W_PHASE, W_PHASE_FREE, W_PHASE_FREE_CQED, W_GETTER, W_DRAW, W_QASM, W_SHAPE, W_SHARE_REV, W_SHARE_CHAIN, W_NOISE, W_SIMEDIT) + \
+        fixed = (W_ALIAS, W_PHASE, W_PHASE_FREE, W_PHASE_FREE_CQED, W_GETTER, W_DRAW, W_QASM, W_SHAPE, W_SHARE_REV, W_SHARE_CHAIN, W_NOISE, W_SIMEDIT, W_SIMEDIT_MEAS) + \
             tuple(PN.FIXED)
         pend = pending()
         if "C16-6" not in pend:
